@@ -78,13 +78,16 @@ finally:
         shutil.rmtree(d, ignore_errors=True)
 dst = '/verif/seeded/%s' % sid
 os.makedirs(dst, exist_ok=True)
-shutil.copy(os.path.join(out, 'patch.diff'), dst)
-shutil.copy(os.path.join(out, 'demo.py'), dst)
-if os.path.exists(os.path.join(out, 'notes.md')):
-    shutil.copy(os.path.join(out, 'notes.md'), dst)
+if os.path.realpath(out) != os.path.realpath(dst):
+    shutil.copy(os.path.join(out, 'patch.diff'), dst)
+    shutil.copy(os.path.join(out, 'demo.py'), dst)
+    if os.path.exists(os.path.join(out, 'notes.md')):
+        shutil.copy(os.path.join(out, 'notes.md'), dst)
 old = {}
 if os.path.exists(os.path.join(dst, 'meta.json')):
     old = json.load(open(os.path.join(dst, 'meta.json')))
+if not baseline and 'baseline' in old:
+    meta['baseline'] = old['baseline']
 old.update(meta)
 json.dump(old, open(os.path.join(dst, 'meta.json'), 'w'), indent=1)
 print('filed under', dst)
